@@ -149,6 +149,18 @@ def run_shard(sh):
                     check_one(sh, term, w, f, strat)
                     sh.case((term, w, f, strat), nontrivial(term))
             sh.counters['exhaustive terms (extra leaves)'] += 1
+    for i in range(300 if quick else 10000):
+        idx += 1
+        if not sh.mine(idx):
+            continue
+        rng = V.rng_for('c04long', sh.seed, i)
+        term = D.long_tail_terms(rng)
+        fw = D.flat_width(term) or 40
+        for w in (fw, max(1, fw - 1), max(1, fw - rng.randint(2, 30)), rng.randint(1, 120)):
+            for strat in ('smart', 'fast'):
+                check_one(sh, term, w, rng.choice(FRACS), strat)
+                sh.case((term, w, strat), True)
+        sh.counters['long-tail terms'] += 1
     for i in range(6000 if quick else 200000):
         idx += 1
         if not sh.mine(idx):
